@@ -132,6 +132,9 @@ func chanElemNamed(t types.Type) *types.Named {
 // calledFromOutsideGoroutines: has fn a caller that is not itself confined to the introducer reach?
 func calledFromOutsideGoroutines(c *Ctx, fn *ssa.Function, inIntro map[*ssa.Function]bool) bool {
 	for _, cs := range c.Light().Callers(fn) {
+		if _, isGo := cs.Instr.(*ssa.Go); isGo {
+			continue // the go statement that starts the goroutine
+		}
 		if !inIntro[enclosingTop(cs.Caller)] {
 			return true
 		}
